@@ -59,16 +59,18 @@ theorem C08_join_subset (P : Params) (a b j : Row) (h : joinRows P a b = .ok (so
     j.pairs ≠ [] ∧ ValidMatching j.rev (sitePairs j.pairs) :=
   Coma.Proofs.joinRows_subset P a b j h
 
-/-- when each part is one factory-like segment and the parts do not interleave (every pair of
-    the earlier part lies before every pair of the later one on both maps), the joined record is
-    exactly the union -/
+/-- when each part is one factory-like segment and the parts do not interleave (every pair AND
+    every unpaired position of the earlier part lies before the later part's first pair on both
+    maps), the joined record is exactly the union.  Without `hU` (unpaired positions too) the
+    statement is false: `Coma.Proofs.Modes.joinRows_union_false`. -/
 theorem C08_join_union_partial (P : Params) (a b : Row) (sa sb : Seg) (pa pb : Pr)
     (ha : a.segments = [sa]) (hb : b.segments = [sb])
     (hpa : sa.pairs.head? = some pa) (hpb : sb.pairs.head? = some pb) (hlt : pa.r.pos < pb.r.pos)
     (hLa : LeftOK sa) (hRb : RightOK sb) (hS : StrictCoords sa sb) (hsep : Separated sa sb)
+    (hU : ∀ x ∈ sa.items, x.isPair = false → x.lessOnBoth pb = true)
     (hv : (Row.create P [sa, sb] a.queryId a.referenceId a.queryLength a.referenceLength a.rev).isOneToOneAndCollinear = true) :
     ∃ j, joinRows P a b = .ok (some j) ∧ j.pairs = sa.pairs ++ sb.pairs :=
-  Coma.Proofs.joinRows_union P a b sa sb pa pb ha hb hpa hpb hlt hLa hRb hS hsep hv
+  Coma.Proofs.joinRows_union P a b sa sb pa pb ha hb hpa hpb hlt hLa hRb hS hsep hU hv
 
 /-- only `segments[0]` of each part enters the join (F8): the union of the parts is the valid
     matching (1,1)…(4,4),(6,6),(7,7) but the joined record has lost (3,3),(4,4) -/
